@@ -227,7 +227,7 @@ def adduct_text(counts=(-2, -1, 1, 2, 3), explicit_plus=None):
 
 def pep_model(alphabet=AA26, min_len=1, max_len=30, kinds=None, mod_strategy=None, mod_list=None,
               allow_empty=True, charge=True, rule_targets=None, max_intervals=3, mults=True, isotopes=None,
-              static_mod_text=None):
+              static_mod_text=None, static_max_mult=1):
     """AnnotModel by construction. kinds: subset of model.KINDS to allow (None = all).
     All sub-strategies are built once here (building strategies inside a draw is very slow)."""
     from pv.model import KINDS, empty_pep
@@ -237,7 +237,8 @@ def pep_model(alphabet=AA26, min_len=1, max_len=30, kinds=None, mod_strategy=Non
     lst_or_empty = st.one_of(st.just([]), lst)
     if static_mod_text is None:
         static_mod_text = mod_text(gt_ok=False) if mod_strategy is None else mod_strategy.map(lambda m: m[0])
-    one_static = st.tuples(static_mod_text, st.just(1)).map(list)
+    one_static = st.tuples(static_mod_text, st.just(1) if static_max_mult == 1 else
+                           st.sampled_from([1, 1, 1] + list(range(2, static_max_mult + 1)))).map(list)
     static_mods = st.lists(one_static, min_size=1, max_size=2)
     iso = st.lists(st.sampled_from(isotopes or ISOTOPE_LABELS), min_size=1, max_size=2, unique=True)
     chg = st.one_of(st.integers(1, 9), st.integers(-5, -1))
